@@ -43,9 +43,10 @@ fn read_lanes(v: &Mvm, st: &State) -> BTreeMap<u64, (TokenAmount, u64)> {
     m
 }
 
-pub fn history(index: u64, mut rng: Rng, tier: Tier) -> Outcome {
+pub fn history(index: u64, mut rng: Rng, tier: Tier, focus: &str) -> Outcome {
     let mut o = Outcome::default();
     let v = genesis(Policy::default());
+    let total0 = v.total_balance();
     install_sig_scheme(&v);
     let accts = make_accounts(&v, 4, 1000 + index, &fil(10_000));
     let (from, to, outsider, third) = (accts[0], accts[1], accts[2], accts[3]);
@@ -298,6 +299,9 @@ pub fn history(index: u64, mut rng: Rng, tier: Tier) -> Outcome {
                             m.min_settle = sv.min_settle_height;
                         }
                     }
+                    if st.to_send > v.balance(&ch) {
+                        o.violate("paych_solvent", "C01/paych_owes_more_than_it_holds", format!("step {step}: channel {ch} owes the payee {} but holds {}", st.to_send, v.balance(&ch)));
+                    }
                     if st.to_send.is_negative() || st.to_send > v.balance(&ch) {
                         o.violate("to_send_bounds", "C16/to_send_bounds", format!("to_send {} outside [0, balance {}]", st.to_send, v.balance(&ch)));
                     }
@@ -361,6 +365,10 @@ pub fn history(index: u64, mut rng: Rng, tier: Tier) -> Outcome {
                 o.op(format!("fund {amt} -> {}", r.code));
             }
         }
+        o.count("conservation_checks");
+        if v.total_balance() != total0 {
+            o.violate("total_constant", "C01/total_fil_changed", format!("step {step}: sum of all balances {} -> {}", total0, v.total_balance()));
+        }
         if m.collected {
             continue;
         }
@@ -390,6 +398,8 @@ pub fn history(index: u64, mut rng: Rng, tier: Tier) -> Outcome {
         }
     }
     o.nontrivial = n_accepted >= 2;
+    let prefix = format!("{focus}/");
+    o.violations.retain(|x| x.signature.starts_with(&prefix));
     o
 }
 
@@ -397,7 +407,7 @@ pub fn run(cfg: &Cfg) -> i32 {
     let mut agg = Agg::new(cfg);
     let tier = cfg.tier;
     let n = tier.pick(400, 12_000);
-    agg.run_parallel("paych", n, Duration::from_secs(tier.pick(120, 1500)), |i, rng| history(i, rng, tier));
+    agg.run_parallel("paych", n, Duration::from_secs(tier.pick(120, 1500)), |i, rng| history(i, rng, tier, "C16"));
     agg.finish(
         "exploration",
         "one history = one channel with 40-60 random ops (vouchers over 4 lanes with unique amounts, merges incl. repeated/unknown/own lanes, replays, wrong signer/channel/secret/time lock, settle, collect, epoch advances around settling_at); non-trivial = at least 2 vouchers accepted; distinct by hash of (outcome, lane, merge count) sequence",
